@@ -16,6 +16,7 @@ import (
 	_ "package-operator.run/internal/packages/zzverif/checks/c12"
 	_ "package-operator.run/internal/packages/zzverif/checks/c13"
 	_ "package-operator.run/internal/packages/zzverif/checks/c14"
+	_ "package-operator.run/internal/packages/zzverif/checks/c15"
 	_ "package-operator.run/internal/packages/zzverif/checks/c16"
 	_ "package-operator.run/internal/packages/zzverif/checks/c17"
 	_ "package-operator.run/internal/packages/zzverif/checks/c18"
